@@ -220,6 +220,26 @@ def partition(labels):
     return sorted(groups.values())
 
 
+def tie_canonical(case, labels):
+    """partition of the ORIGINAL rows written up to a swap of indistinguishable modalities: two raw values of
+    a qualitative feature with exactly the same training (and dev) target multiset are interchangeable for
+    the carver, the order in which it meets them may depend on their names (exact ties are accepted in any
+    order).  Each group becomes the multiset of the signatures of the raw values it holds."""
+    X = decs(case["X"])
+    y = case["y"]
+    sig = {}
+    for x, t in zip(X, y):
+        sig.setdefault(repr(x), []).append(t)
+    if case.get("Xdev") is not None:
+        for x, t in zip(decs(case["Xdev"]), case["ydev"]):
+            sig.setdefault(repr(x), []).append(("dev", t))
+    sig = {k: repr(sorted(map(repr, v))) for k, v in sig.items()}
+    groups = {}
+    for x, l in zip(X, labels):
+        groups.setdefault(l, set()).add(repr(x))
+    return sorted(sorted(sig[m] for m in g) for g in groups.values())
+
+
 class C11(Prop):
     pid = "C11"
     coq_targets = ["Properties/C11.vo", "Model/CheckC01.vo"]
@@ -290,6 +310,9 @@ class C11(Prop):
             if r["kept"] != o["kept"]:
                 return False, f"{r['name']}: feature kept={r['kept']} but kept={o['kept']} on the original encoding"
             if o["kept"] and partition(r["row_labels"]) != partition(o["row_labels"]):
+                if case["ftype"] != "quant" and \
+                        tie_canonical(case, r["row_labels"]) == tie_canonical(case, o["row_labels"]):
+                    continue   # same grouping up to a swap of exactly tied (indistinguishable) modalities
                 return False, (f"{r['name']}: the partition of rows induced by transform differs from the "
                                f"original encoding's ({len(partition(r['row_labels']))} vs "
                                f"{len(partition(o['row_labels']))} groups)")
